@@ -2162,6 +2162,8 @@ class FnTranslator:
             args = [self.pure(a, env, wt) for a, wt in zip(e[1], wts)]
             if any(a is None for a in args):
                 return None
+            if not args:
+                return "tt"
             return "(" + ", ".join(args) + ")"
         if k == "veclit":
             wt = want[2][0] if is_list(want) else None
@@ -2244,6 +2246,26 @@ class FnTranslator:
         if ty[0] == "ty" and ty[1] == "bool" and op in ("==", "!="):
             r = "(Bool.eqb %s %s)" % (a, b)
             return r if op == "==" else "(negb %s)" % r
+        if ty[0] == "ty" and (self.c.struct(ty[1]) is not None or self.c.enum(ty[1]) is not None) and op in ("==", "!=") \
+                and "PartialEq" not in self.c.derives(ty[1]) and (ty[1], "eq") in self.c.fn_info:
+            # a hand-written impl PartialEq that is translated in this module
+            info = self.c.fn_info[(ty[1], "eq")]
+            if info["pure"] is None:
+                raise NotYet(info["coq"])
+            if not info["pure"]:
+                raise Unsupported("== on %s through an impl PartialEq that can panic" % ty[1])
+            r = "(%s %s %s)" % (info["coq"], a, b)
+            return r if op == "==" else "(negb %s)" % r
+        if ty[0] == "ty" and (self.c.struct(ty[1]) is not None or self.c.enum(ty[1]) is not None) and op in ("<", "<=", ">", ">=") \
+                and (ty[1], "cmp") in self.c.fn_info:
+            # a hand-written impl Ord that is translated in this module (PartialOrd forwards to it)
+            info = self.c.fn_info[(ty[1], "cmp")]
+            if info["pure"] is None:
+                raise NotYet(info["coq"])
+            if not info["pure"]:
+                raise Unsupported("%s on %s through an impl Ord that can panic" % (op, ty[1]))
+            yes = {"<": "Lt => true | _ => false", "<=": "Gt => false | _ => true", ">": "Gt => true | _ => false", ">=": "Lt => false | _ => true"}[op]
+            return "(match %s %s %s with %s end)" % (info["coq"], a, b, yes)
         if ty[0] == "ty" and (self.c.struct(ty[1]) is not None or self.c.enum(ty[1]) is not None) and op in ("==", "!="):
             if "PartialEq" not in self.c.derives(ty[1]):
                 raise Unsupported("== on %s without derived PartialEq" % ty[1])
@@ -2703,6 +2725,27 @@ class FnTranslator:
         walk(e, f)
         return bool(found)
 
+    def inout_call_roots(self, e):
+        """root variables handed to an in-out (&mut slice / Vec) parameter of a translated function anywhere in e"""
+        out = []
+
+        def f(x):
+            if x[0] == "call" and x[1][0] == "path":
+                info = self.lookup_fn(x[1][1])
+                if info:
+                    ps = [q for q in info["params"] if q[0] != "self"]
+                    for i_, (_n, pt) in enumerate(ps):
+                        if is_outparam_ty(pt) and i_ < len(x[2]):
+                            place = x[2][i_]
+                            while place[0] == "unary" and place[1] in ("&", "&mut", "*"):
+                                place = place[2]
+                            while place[0] in ("field", "index"):
+                                place = place[1]
+                            if place[0] == "path" and len(place[1]) == 1 and place[1][0] not in out:
+                                out.append(place[1][0])
+        walk(e, f)
+        return out
+
     def tr_mutcall(self, e, env, k, info):
         """recv.method(args) where method takes &mut self: recv is rebound to the new value"""
         recv = e[1]
@@ -2810,7 +2853,7 @@ class FnTranslator:
         bound_inside = set()
         for p_ in parts:
             bound_inside |= let_bound(p_)
-        mut = [v for p_ in parts for v in assigned_vars(p_)]
+        mut = [v for p_ in parts for v in assigned_vars(p_)] + [v for p_ in parts if p_ is not None for v in self.inout_call_roots(p_)]
         mut = [v for i, v in enumerate(mut) if v not in mut[:i] and (v in env or v == "self")]
         used = [v for p_ in parts for v in used_vars(p_)]
         free = []
@@ -3101,6 +3144,25 @@ class FnTranslator:
             wrapper = "Definition M_%s %s : option %s := Some (%s%s)." % (name, " ".join(binders), rty, name, args)
             return True, False, "Definition %s %s : %s :=\n%s.\n%s" % (name, " ".join(binders), rty, indent(body_pure), wrapper)
         term = self.tr(self.body, env, self.ret_k, self.ret)
+        if getattr(self, "selfrec", False):
+            self.uses_fuel = True
+            term = peephole(term)
+            rec_ty = " -> ".join([self.c.coq_ty(t_) for _n, t_ in self.params] + ["option %s" % rty])
+            for i_, a_ in enumerate(self.aux):
+                if "M_%s fuel" % name not in a_:
+                    continue
+                m_ = re.match(r"Fixpoint (\S+) \(fuel : nat\)", a_)
+                if not m_:
+                    raise Unsupported("recursive call inside a loop of unexpected shape")
+                an = m_.group(1)
+                a_ = a_.replace("%s fuel" % an, "%s rec_ fuel" % an).replace("M_%s fuel" % name, "rec_")
+                a_ = a_.replace("Fixpoint %s (fuel : nat)" % an, "Fixpoint %s (rec_ : %s) (fuel : nat)" % (an, rec_ty), 1)
+                self.aux[i_] = a_
+                term = term.replace("%s fuel" % an, "%s (%s fuel) fuel" % (an, name))
+            term = "match fuel with\n| O => None\n| S fuel =>\n%s\nend" % indent(term.replace("M_%s fuel" % name, "%s fuel" % name))
+            wrapper = "Definition M_%s (fuel : nat) %s : option %s := %s fuel%s." % (name, " ".join(binders), rty, name, args)
+            text = "\n".join(self.aux + ["Fixpoint %s (fuel : nat) %s {struct fuel} : option %s :=\n%s.\n%s" % (name, " ".join(binders), rty, indent(term), wrapper)])
+            return False, True, text
         fuel = self.uses_fuel
         fb = "(fuel : nat) " if fuel else ""
         fa = " fuel" if fuel else ""
@@ -3434,7 +3496,8 @@ MODULES = {
                         ("RE", "HashConsed", "make")]
                      + [("RE", "PartialEq", "eq"), ("RE", "Ord", "cmp"), ("RE", "PartialOrd", "partial_cmp")]
                      + [("BaseRegLan", None, f) for f in ("is_nullable", "concat_or_atomic", "is_all_chars", "is_full",
-                                                          "is_range", "match_char_set", "deriv_class")],
+                                                          "is_range", "match_char_set", "deriv_class")]
+                     + [(None, None, "contains"), ("BaseRegLan", None, "is_atomic")],
         # is_atomic / is_singleton / is_simple_pattern feed only Display and dead code: no model counterpart, not translated
     },
     "FastSetGen": {
@@ -3470,7 +3533,7 @@ MODULES = {
                                                   "char_sets_of_pattern", "rigid_prefix_match", "rigid_suffix_match", "flexible_match")]
                      + [("BasePattern", None, "set_match"), (None, None, "shift_pattern_start"), (None, None, "find_rigid_matches"),
                         (None, None, "set_flexible_regions"), (None, None, "match_flexible_patterns"),
-                        (None, None, "find_rigid_matches_rev")],
+                        (None, None, "find_rigid_matches_rev"), (None, None, "flatten_concat"), (None, None, "decompose_concat"), (None, None, "flatten_inter"), (None, None, "flatten_union")],
         # concat_inclusion itself translates too (re-slicing, &&-chains of in-out calls); it is left out until its link
         # (which needs the tiling / ordering invariants of InclusionProofs.v on the generated side) is written
     },
@@ -3501,7 +3564,28 @@ def translate_one(ctx, key, params, ret, body, coq, mutself):
         ctx.aux_names.append("M_" + ncoq)
         texts.append(ntext)
     ft = FnTranslator(ctx, key[0], coq, params, ret, body, mutself, local_fns)
+    me = next(((i, n) for (i, n), inf in ctx.fn_info.items() if inf["coq"] == coq and i == key[0]), None)
+    if me is not None and key[1] is None and calls_itself(body, key[0], key[2]):     # (T::from inside an impl From<..> is another impl)
+        # a self-recursive function: a Fixpoint on fuel, None when it runs out; a loop around the recursive call
+        # takes the function at the smaller fuel as a parameter
+        ctx.fn_info[me]["pure"], ctx.fn_info[me]["fuel"] = False, True
+        ft.selfrec = True
     return texts, local_fns, ft.translate()
+
+
+def calls_itself(body, impl, fname):
+    """does the body call the function it belongs to (by path, or as a method of `self` itself)?"""
+    found = []
+
+    def f(x):
+        if x[0] == "call" and x[1][0] == "path":
+            p = list(x[1][1])
+            if (impl is None and p == [fname]) or (impl is not None and len(p) == 2 and p[0] in ("Self", impl) and p[1] == fname):
+                found.append(x)
+        if x[0] == "mcall" and impl is not None and x[2] == fname and x[1][0] == "path" and list(x[1][1]) == ["self"]:
+            found.append(x)
+    walk(body, f)
+    return bool(found)
 
 
 def extract_nested(body):
